@@ -29,6 +29,7 @@ type c01 struct {
 	calls int
 	beta  map[int]int
 	st    *Stats
+	lg    map[int]*lgTrack // per register
 }
 
 // betaTag buckets the balance factor of a register for the notes.
@@ -138,6 +139,7 @@ func (r *c01) obs(res string, reg, b int) string {
 			return len(astop[js]) < js
 		})
 	}
+	r.see(reg, t.Len())
 	shape, h := c01Shape(t)
 	fmt.Fprintf(&sb, ";after=%d:%s;stop=%d:%s;afterstop=%d:%s %s %s %s;cmps=%d %d %d;h=%d;vmax=%d;shape=%s",
 		b+1, fmtInts(after), j, fmtInts(stop), b-10, fmtInts(astop[0]), fmtInts(astop[1]), fmtInts(astop[2]), fmtInts(astop[3]),
@@ -149,12 +151,66 @@ func (r *c01) obs(res string, reg, b int) string {
 	return sb.String()
 }
 
+// see feeds the size of a register to the threshold labels of the large families.
+func (r *c01) see(reg, n int) {
+	if r.lg[reg] == nil {
+		r.lg[reg] = &lgTrack{}
+	}
+	r.lg[reg].see(r.st, "stree", n)
+}
+
+// bulk runs a bulk line of the large cases, `addn|replacen|removen <reg> <k0>,<d>,<n>`: n single calls with the keys
+// k0+i*d, one observation (probe base k0) whose result is the string of the n results.
+func (r *c01) bulk(op []string) string {
+	if len(op) != 3 {
+		return "bad-op"
+	}
+	a := ints(strings.Split(op[2], ","))
+	if len(a) != 3 || a[2] <= 0 {
+		return "bad-op"
+	}
+	reg, k0, d, n := atoi(op[1]), a[0], a[1], a[2]
+	t := r.regs[reg]
+	if t == nil {
+		return "r=" + strings.Repeat("panic", n)
+	}
+	var sb strings.Builder
+	for i := 0; i < n; i++ {
+		k := k0 + i*d
+		var ok bool
+		switch op[0] {
+		case "addn":
+			ok = t.Add(k)
+		case "replacen":
+			ok = t.Replace(k)
+		default:
+			vmax := stree.VerifMax(t)
+			ok = t.Remove(k)
+			if stree.VerifMax(t) != vmax {
+				r.st.Note("whole-rebuild")
+				if t.Len() >= 64 {
+					r.st.Note("whole-rebuild>=64keys")
+				}
+				if cl := c10sizeClass(t.Len()); cl != "" {
+					r.st.Note("stree-whole-rebuild-at-len" + cl)
+				}
+			}
+		}
+		sb.WriteString(fmtBool(ok))
+		r.see(reg, t.Len())
+	}
+	return r.obs(sb.String(), reg, k0)
+}
+
 func (r *c01) Exec(op []string) string {
 	switch op[0] {
+	case "addn", "replacen", "removen":
+		return r.bulk(op)
 	case "reset":
 		r.regs = map[int]*stree.Tree[int]{}
 		r.shape = map[int]string{}
 		r.beta = map[int]int{}
+		r.lg = map[int]*lgTrack{}
 		r.div10 = len(op) > 1 && op[1] == "div10"
 		return "-"
 	case "new":
@@ -664,7 +720,141 @@ func genC01Exhaustive(g *G, length int, shard, nshards int) {
 	}
 }
 
+// genC01Large: trees grown past 1024 keys (thorough: past 4096) at several balance factors — from an empty New by
+// Add in ascending, descending or striped key order (observing at every threshold), or by one bulk New of sorted
+// or shuffled keys —, edited while large, cloned, drained by Remove alone through every threshold to a handful
+// (every Remove observed from 40 keys down), regrown to a half, drained below a quarter, regrown past the first
+// size, cleared, used again.  Bulk lines addn/replacen/removen keep the history linear in the size.
+func genC01Large(g *G) {
+	type lc struct{ n, β, order int }
+	// (Remove rebuilds the whole tree when size < (max·β+1000)/2000: at about an eighth of the high-water mark
+	// for β = 250, at half of it for β = 1000, never for β = 0)
+	cs := []lc{{1030, 250, 0}, {1030, 1000, 4}, {260, 800, 2}, {130, 0, 1}}
+	if g.Thorough() {
+		cs = append(cs, lc{4100, 250, 2}, lc{4100, 999, 4}, lc{1025, 500, 1}, lc{2050, 990, 0}, lc{1030, 0, 3}, lc{520, 1000, 0}, lc{600, 999, 1}, lc{300, 1, 2}, lc{65, 250, 3})
+	}
+	for _, c := range cs {
+		N := c.n
+		var ops []string
+		add := func(format string, a ...any) { ops = append(ops, fmt.Sprintf(format, a...)) }
+		add("reset nat")
+		stored := map[int]bool{}
+		// run emits the single calls for plan[a:b], maximal arithmetic runs of three or more keys as one bulk line
+		run := func(name string, plan []int, a, b int) {
+			for a < b {
+				e := a + 1
+				if e < b {
+					d := plan[e] - plan[a]
+					for e < b && plan[e]-plan[e-1] == d {
+						e++
+					}
+					if e-a >= 3 {
+						add("%sn 0 %d,%d,%d", name, plan[a], d, e-a)
+						for _, k := range plan[a:e] {
+							stored[k] = name != "remove"
+						}
+						a = e
+						continue
+					}
+				}
+				add("%s 0 %d", name, plan[a])
+				stored[plan[a]] = name != "remove"
+				a++
+			}
+		}
+		size := func() int {
+			n := 0
+			for _, in := range stored {
+				if in {
+					n++
+				}
+			}
+			return n
+		}
+		// the keys of plan that are (not) stored, in plan order
+		sel := func(plan []int, in bool) []int {
+			var out []int
+			for _, k := range plan {
+				if stored[k] == in {
+					out = append(out, k)
+				}
+			}
+			return out
+		}
+		walk := func(name string, plan []int, from, target, small int) {
+			// from -> target elements, stopping at every point of lgPoints
+			pts := lgPoints(max(from, target), small, false)
+			done := 0
+			if target > from {
+				for _, p := range pts {
+					if p > from+done && p <= target {
+						run(name, plan, done, p-from)
+						done = p - from
+					}
+				}
+			} else {
+				for i := len(pts) - 1; i >= 0; i-- {
+					if pts[i] < from-done && pts[i] >= target {
+						run(name, plan, done, from-pts[i])
+						done = from - pts[i]
+					}
+				}
+				run(name, plan, done, from-target)
+			}
+		}
+		plan := c04plan(g, N+8, 1, c.order)
+		if c.order >= 3 {
+			// outside-in and random orders have no arithmetic runs: one bulk New instead
+			line := fmt.Sprintf("new 0 %d", c.β)
+			for _, k := range plan[:N] {
+				line += " " + strconv.Itoa(k)
+				stored[k] = true
+			}
+			add("%s", line)
+		} else {
+			add("new 0 %d", c.β)
+			walk("add", plan, 0, N, 12)
+		}
+		if c.order >= 3 {
+			plan = c04plan(g, N+8, 1, g.Intn(3)) // the regrow phases below go by arithmetic runs
+		}
+		// edits while large
+		ks := sel(plan, true)
+		mid := ks[len(ks)/2]
+		add("add 0 %d", mid)     // present
+		add("replace 0 %d", mid) // present
+		add("remove 0 %d", mid+1)
+		add("remove 0 %d", mid)
+		stored[mid] = false
+		add("add 0 %d", mid)
+		stored[mid] = true
+		add("clone 1 0")
+		// drain by Remove alone
+		dorder := (c.order + 1) % 3
+		dplan := sel(c04plan(g, N+8, 1, dorder), true)
+		walk("remove", dplan, len(dplan), g.Intn(4), 40)
+		add("remove 0 %d", -5)
+		// carry-over: regrow to a half, drain below a quarter, regrow past N, Clear, use again
+		walk("add", sel(plan, false), size(), N/2+1, 0)
+		dplan = sel(c04plan(g, N+8, 1, (dorder+1)%3), true)
+		walk("remove", dplan, len(dplan), max(N/4-1, 1), 12)
+		rest := sel(plan, false)
+		run("add", rest, 0, min(len(rest), N+3-size()))
+		add("replacen 0 %d,%d,%d", plan[0], 0, 3)
+		add("clear 0")
+		for k := range stored {
+			stored[k] = false
+		}
+		run("add", plan, 0, 33+g.Intn(8))
+		dplan = sel(c04plan(g, N+8, 1, g.Intn(3)), true)
+		walk("remove", dplan, len(dplan), 0, 40)
+		add("remove 1 %d", mid) // the clone still holds everything
+		g.Each(ops)
+	}
+}
+
 func genC01(g *G) {
+	genC01Large(g)
 	// out-of-range balance factors and the boundary ones
 	for _, β := range []int{-1, 1001, 0, 1000} {
 		g.Each([]string{"reset nat", fmt.Sprintf("new 0 %d 5 1 9 5 3", β)})
